@@ -207,9 +207,9 @@ void harness(void)
 #ifdef VW_MAPN_MAX
     __CPROVER_assume(!H_MAPN_OK || H_MAPN <= VW_MAPN_MAX);   /* BOUNDED: number of stored mapping entries */
 #endif
-    /* well-formed stored mapping: at most 8 entries, every entry maps at least one byte (bit-wise mapping is not supported) */
+    /* stored mapping: at most 8 entries (COTPdoNumWrite); the LENGTH byte of an entry is whatever a client wrote - COTPdoMapWrite
+     * does not look at it - so entries of 0..7 bits (0 bytes) are part of the input space */
     __CPROVER_assume(!H_MAPN_OK || H_MAPN <= 8);
-    for (int i = 1; i <= 8; i++) { __CPROVER_assume(((uint8_t)H_MAPENT[i] >> 3) >= 1); }
     CO_ERR e = CORPdoGetMap(V_NODE.RPdo, H_PN);
     uint32_t bytes = 0, slots = 0; _Bool allok = H_MAPN_OK;
     for (int i = 1; i <= 8; i++) { if (H_MAPN_OK && i <= H_MAPN) { if (!H_MAPENT_OK[i]) { allok = 0; } uint8_t b = (uint8_t)H_MAPENT[i] >> 3; uint16_t ix = (uint16_t)(H_MAPENT[i] >> 16); bytes += b;
